@@ -1,8 +1,21 @@
 """Property -> rule functions."""
-from .rules import safety, codecs, determinism
+from .rules import safety, codecs, determinism, exhaust
+
+
+def _scoped(fn, **kw):
+    def run(ctx, repo):
+        return fn(ctx, repo, **kw)
+
+    run.__name__ = fn.__name__ + "_" + "_".join(str(v) for v in kw.values()).replace("/", "_")
+    run.__module__ = fn.__module__
+    return run
+
 
 PROPS = {
+    "C07": exhaust.ALL_C07 + [_scoped(exhaust.f19_varidx, scope=("subset/",), rule="F19"), _scoped(determinism.f12_set_order, scope=("subset/",), rule="F12-subset")],
+    "C08": exhaust.ALL_C08 + [_scoped(exhaust.f19_varidx, scope=("varLib/instancer/",), rule="F19"), _scoped(determinism.f12_set_order, scope=("varLib/instancer/",), rule="F12-instancer")],
     "C15": codecs.ALL,
     "C16": determinism.ALL,
+    "C17": exhaust.ALL_C17,
     "C20": safety.ALL,
 }
